@@ -5,26 +5,67 @@ use crate::{
 use boa_ast::{
     Expression,
     expression::operator::{
-        Binary, BinaryInPrivate,
+        Assign, Binary, BinaryInPrivate, Update,
         binary::{ArithmeticOp, BinaryOp, BitwiseOp, LogicalOp, RelationalOp},
     },
+    visitor::Visitor,
 };
+use std::ops::ControlFlow;
+
+/// Returns `true` if evaluating `expr` may write to a binding (assignment or update).
+fn may_write_binding(expr: &Expression) -> bool {
+    struct WriteVisitor;
+
+    impl<'ast> Visitor<'ast> for WriteVisitor {
+        type BreakTy = ();
+
+        fn visit_assign(&mut self, _: &'ast Assign) -> ControlFlow<Self::BreakTy> {
+            ControlFlow::Break(())
+        }
+
+        fn visit_update(&mut self, _: &'ast Update) -> ControlFlow<Self::BreakTy> {
+            ControlFlow::Break(())
+        }
+    }
+
+    WriteVisitor.visit_expression(expr).is_break()
+}
 
 impl ByteCompiler<'_> {
+    /// Compile the left operand of a binary operator whose right operand is compiled afterwards.
+    ///
+    /// [`ByteCompiler::compile_expr_operand`] hands out the persistent register of a local
+    /// binding without copying it, so if the right operand writes to that binding
+    /// (`x + (x = 5)`, `x + x++`) the left value must be saved in a temporary first.
+    pub(crate) fn compile_binary_lhs_operand(
+        &mut self,
+        binary: &Binary,
+        inner_fn: impl FnOnce(&mut Self, RegisterOperand),
+    ) {
+        if matches!(binary.lhs(), Expression::Identifier(_)) && may_write_binding(binary.rhs()) {
+            let reg = self.register_allocator.alloc();
+            self.compile_expr(binary.lhs(), &reg);
+            inner_fn(self, reg.variable());
+            self.register_allocator.dealloc(reg);
+        } else {
+            self.compile_expr_operand(binary.lhs(), inner_fn);
+        }
+    }
+
     pub(crate) fn compile_binary(&mut self, binary: &Binary, dst: &Register) {
         match binary.op() {
             BinaryOp::Arithmetic(op) => {
-                self.compile_expr_operand(binary.lhs(), |self_, lhs| {
+                self.compile_binary_lhs_operand(binary, |self_, lhs| {
                     self_.compile_binary_arithmetic(op, binary.rhs(), dst, lhs);
                 });
             }
             BinaryOp::Bitwise(op) => {
-                self.compile_expr_operand(binary.lhs(), |self_, lhs| {
+                self.compile_binary_lhs_operand(binary, |self_, lhs| {
                     self_.compile_binary_bitwise(op, binary.rhs(), dst, lhs);
                 });
             }
             BinaryOp::Relational(op) => {
-                self.compile_expr_operand(binary.lhs(), |self_, lhs| {
+                self.compile_binary_lhs_operand(binary, |self_, lhs| {
                     self_.compile_binary_relational(op, binary.rhs(), dst, lhs);
                 });
             }
